@@ -964,6 +964,45 @@ def gen_growth(seed, n):
     return lines
 
 
+
+def gen_exact_fit(numpages_list, pagesize=4096, nvals=1300, prefix="fit"):
+    """a file whose initial size is (almost) exactly what the data needs, so that the commit that follows finds the
+    file full without any 8 MiB extension step having happened yet: transaction 1 fills a bucket with `nvals` values of
+    one page each, transaction 2 deletes the bucket — more than (pagesize - 32) / 8 page ids go to the free list at
+    once, so the new free-list run is several pages long and has to come from the end of the file.  Swept over initial
+    page counts around the number of pages transaction 1 needs, strict mode on and off."""
+    lines = []
+    for np_ in numpages_list:
+        for strict in (0, 1):
+            lines.append("hist %s-p%d-n%d-s%d" % (prefix, pagesize, np_, strict))
+            lines.append("cfg pagesize=%d numpages=%d strict=%d populate=0" % (pagesize, np_, strict))
+            lines.append("open")
+            lines.append("begin 1 w")
+            lines.append("mkb 1 1 0 %s" % hx(b"big"))
+            for i in range(nvals):
+                lines.append("put 1 1 %s %s" % (hx(b"%08d" % i), vtok(bytes([i % 251]) * (pagesize - 200))))
+            lines.append("mkb 1 2 0 %s" % hx(b"other"))
+            lines.append("put 1 2 %s %s" % (hx(b"k"), hx(b"v")))
+            lines.append("commit 1")
+            lines.append("file")
+            lines.append("begin 2 w")
+            lines.append("delb 2 0 %s" % hx(b"big"))
+            lines.append("commit 2")
+            lines.append("file")
+            lines.append("dbcheck")
+            lines.append("begin 3 w")
+            lines.append("getb 3 3 0 %s" % hx(b"other"))
+            lines.append("put 3 3 %s %s" % (hx(b"k2"), vtok(b"\x05" * 3000)))
+            lines.append("commit 3")
+            lines.append("file")
+            lines.append("dbcheck")
+            lines.append("reopen")
+            lines.append("begin 4 r")
+            lines.append("dump 4")
+            lines.append("drop 4")
+            lines.append("close")
+    return lines
+
 # ---- C10: long runs with bounded live data -----------------------------------------------------
 def gen_c10(seed, n, ntx=120, pagesize=1024, numpages=4000):
     """soak workloads: fixed-size / variable-size overwrite, delete and bucket-delete with bounded
